@@ -63,7 +63,7 @@ def crash_only(ctx, d):
 def run(ctx):
     os.environ.setdefault("VERIF_WATCHDOG_MS", "5050")
     return memlib.run_family(
-        ctx, PID, make_cases,
+        ctx, PID, make_cases, wire_every=2,
         rule="every command name registered in memdb.CmdTable (read from the running implementation) x all argument vectors of length 0..%s over the adversarial alphabet, plus all vectors one longer whose first argument is one of the seven keys (empty, numeric extremes, nan/inf, option keywords of that command, stream-id shapes, a key of each of the six types, a missing key) + seeded longer vectors; keyspace re-populated with one key per type every 150 calls; liveness probes interleaved; ZADD vectors with scores outside the model's exact-decimal domain are run crash-only" % ("2" if ctx.tier == "quick" else "3"),
         extra_tb=["blocking commands run under Go's faketime virtual clock with a 5.05 s virtual watchdog: a call still blocked then is cancelled and must be one the model also blocks",
                   "not modelled: stack/heap exhaustion by legitimately large inputs; SUBSCRIBE/PUBLISH/RCONF need a live connection / Raft node and are exercised by C19 / C07 / C14 instead"],
